@@ -2,8 +2,10 @@ package an
 
 import (
 	"go/ast"
+	"go/printer"
 	"go/token"
 	"go/types"
+	"reflect"
 	"strings"
 
 	"golang.org/x/tools/go/types/typeutil"
@@ -18,6 +20,18 @@ func Str(e ast.Node) string {
 		return types.ExprString(x)
 	}
 	return ""
+}
+
+// StmtStr renders a statement (or any node) in source form.
+func StmtStr(n ast.Node) string {
+	if n == nil || (reflect.ValueOf(n).Kind() == reflect.Ptr && reflect.ValueOf(n).IsNil()) {
+		return ""
+	}
+	var sb strings.Builder
+	if err := printer.Fprint(&sb, token.NewFileSet(), n); err != nil {
+		return ""
+	}
+	return sb.String()
 }
 
 func Unparen(e ast.Expr) ast.Expr {
